@@ -619,7 +619,7 @@ class Lib:
         raise EngineLimit("issubclass")
 
     def bi_callable(self, ctx, v):
-        return isinstance(v, (V.Closure, V.BoundMethod, V.Builtin, V.ClassVal, V.Partial))
+        return isinstance(v, (V.Closure, V.BoundMethod, V.Builtin, V.ClassVal, V.Partial, V.Recorder, V.SymClosure))
 
     def bi_int(self, ctx, x=0, base=None):
         if isinstance(x, bool):
